@@ -292,6 +292,13 @@ def rule_axis_py(ctx, py):
                 continue
             if "periodical" in src:
                 k = one_axis(ctx, R, st.test, gg._qual, "grid_to_graph: if " + src[:60])
+                extra = [(a_, p_) for a_, p_ in pya.atoms(st.test, True) if "periodical" not in a_]
+                okx = all(p_ and k is not None and a_ in ("1 < grid.%s" % EXT_OF_AXIS[k],) for a_, p_ in extra) and \
+                    len(pya.atoms(st.test, True)) >= 1
+                ctx.check(okx, "C15.DISP", st, gg._qual, "wrap edges of axis %s under %s" % ("xyz"[k] if k is not None else "?", src[:70]),
+                          "every periodic axis gets its wrap edges", "the wrap edges are additionally conditioned on %s: a "
+                          "periodic axis of that length loses contacts that the grid engine and kinetics count"
+                          % [a_ for a_, _ in extra])
                 for c in calls:
                     ti, tj = edge_triples(c)
                     chg = [q for q in range(3) if pyfe.src(ti.elts[q]) != pyfe.src(tj.elts[q])]
@@ -340,47 +347,170 @@ def edge_triples(call):
 
 
 # ------------------------------------------------------------------------------------------------ C++
+def _lin_cond(c):
+    """G (Poly) with `c  <=>  G >= 0` over the integers, for a single relational test; else None"""
+    c = strip(c)
+    if c.get("kind") != "BinaryOperator" or c.get("opcode") not in ("<", "<=", ">", ">=", "=="):
+        return None
+    l, r = cxa.poly(kids(c)[0]), cxa.poly(kids(c)[1])
+    op = c["opcode"]
+    if op == "<":
+        return [r - l - Poly.const(1)]
+    if op == "<=":
+        return [r - l]
+    if op == ">":
+        return [l - r - Poly.const(1)]
+    if op == ">=":
+        return [l - r]
+    return [l - r, r - l]          # equality: both non-negative
+
+
+def _holds(gs, var, value):
+    """truth of the condition at var := value (a Poly), or None when it does not reduce to a constant"""
+    out = True
+    for g in gs:
+        v = g.subs({var: value})
+        if not v.isconst():
+            return None
+        out = out and v.constval() >= 0
+    return out
+
+
 def rule_cx(ctx, tu):
     R = "C15.AXIS"
     f = tu.fn("SimulationAlgorithm3DBase::GetNeighborIndex")
-    # switch: direction -> (axis, sign)
+    # direction -> (axis, sign): from a switch, or from per-axis constant lookup tables indexed by the direction
     moves = {}
     for n in walk(f.body):
         if n.get("kind") == "CaseStmt":
             lab = cxa.const_int(kids(n)[0])
             for s in cxa.all_stores(n):
                 if s.base and s.op in ("+=", "-=") and cxa.const_int(s.rhs) == 1:
-                    nm = s.base[1]
+                    nm = cxfe.uname(strip(s.target, casts=True)).split("'")[0]
                     ctx.need(nm in AX, R, "GetNeighborIndex: case %s moves unknown variable %s" % (lab, nm))
                     moves[lab] = (AX[nm], 1 if s.op == "+=" else -1)
+    if not moves:
+        tables = {}
+        for n in walk(f.body):
+            if n.get("kind") == "VarDecl" and "[6]" in n.get("type", {}).get("qualType", "") and kids(n):
+                lits = [cxa.const_int(x) for x in kids(strip(kids(n)[-1]))]
+                if len(lits) == 6 and None not in lits:
+                    tables[cxfe.uname(n)] = lits
+        vec = {}
+        for s in cxa.all_stores(f.body):
+            sub = cxfe.subscript(s.rhs) if s.rhs is not None else None
+            if s.base and s.op == "+=" and sub is not None and cxfe.uname(strip(sub[0], casts=True)) in tables and \
+                    cxfe.uname(strip(sub[1], casts=True)) == f.param_names()[3]:
+                nm = s.base[1].split("'")[0]
+                ctx.need(nm in AX, R, "GetNeighborIndex: unknown moved variable %s" % nm)
+                vec[AX[nm]] = tables[cxfe.uname(strip(sub[0], casts=True))]
+        if len(vec) == 3:
+            for d_ in range(6):
+                step = [(ax, vec[ax][d_]) for ax in range(3) if vec[ax][d_] != 0]
+                if len(step) == 1 and abs(step[0][1]) == 1:
+                    moves[d_] = step[0]
+    ctx.need(moves, R, "GetNeighborIndex: neither a direction switch nor direction lookup tables recognised")
     ctx.check(sorted(moves.values()) == sorted((k, s) for k in range(3) for s in (-1, 1)) and
-              sorted(moves) == list(range(6)), "C15.DISP", f.node, f.qual, "GetNeighborIndex switch: %s" % moves,
-              "six directions = +-1 on each axis", "the direction switch is not the six unit moves")
+              sorted(moves) == list(range(6)), "C15.DISP", f.node, f.qual, "GetNeighborIndex directions: %s" % moves,
+              "six directions = +-1 on each axis", "the direction table is not the six unit moves")
     ctx.analysed["directions"] = {str(k): v for k, v in moves.items()}
-    # wrap statements and the range test: one axis each
-    for n in walk(f.body):
-        if n.get("kind") == "IfStmt":
-            c = cxfe.raw_kids(n)[0]
-            conj = conj_list(c)
-            if len(conj) == 1:
-                toks = cx_axis_tokens(n)
-                axes = {a for a, _ in toks}
-                ctx.check(len(axes) == 1, R, n, f.qual, text(n) + " " + text(cxfe.raw_kids(n)[1])[:40],
-                          "axis %s only" % sorted(axes), "mixes axes: %s" % sorted(t for _, t in toks))
-            else:
-                for e in conj:
-                    toks = cx_axis_tokens(e)
-                    axes = {a for a, _ in toks}
-                    ctx.check(len(axes) == 1, R, e, f.qual, text(e), "axis %s only" % sorted(axes),
-                              "mixes axes: %s" % sorted(t for _, t in toks))
-                # every coordinate has both bounds
-                facts = set()
-                for e in conj:
-                    facts |= set(cxa.cfacts(e, True))
-                for k, v in enumerate(("xn", "yn", "zn")):
-                    ok = ("0 <= %s" % v, True) in facts and ("%s < %s" % (v, EXT_OF_AXIS[k]), True) in facts
-                    ctx.check(ok, "C15.ENT", c, f.qual, "GetNeighborIndex range test on %s" % v,
-                              "0 <= %s < %s" % (v, EXT_OF_AXIS[k]), "range test on %s incomplete" % v)
+    # periodic wrap of each axis: under the flag of axis k, coordinate k is mapped -1 -> extent-1 and extent -> 0
+    coord = {0: None, 1: None, 2: None}
+    for s in cxa.all_stores(f.body):
+        if s.base and s.base[0] == "var" and s.base[1].split("'")[0] in ("xn", "yn", "zn"):
+            coord[AX[s.base[1].split("'")[0]]] = s.base[1]
+    seen_axes = set()
+    for n in kids(f.body):
+        if n.get("kind") != "IfStmt":
+            continue
+        c = cxfe.raw_kids(n)[0]
+        flags = [k for k, t in cx_axis_tokens(c) if t.startswith("boundary_conditions[")]
+        if len(flags) != 1 or len(conj_list(c)) != 1:
+            continue
+        k = flags[0]
+        seen_axes.add(k)
+        body = cxfe.raw_kids(n)[1]
+        toks = cx_axis_tokens(n)
+        axes = {a for a, _ in toks}
+        ctx.check(axes == {k}, R, n, f.qual, text(n) + " " + text(body)[:30], "axis %s only" % "xyz"[k],
+                  "the wrap of axis %s mixes axes: %s" % ("xyz"[k], sorted(t for _, t in toks)))
+        v = coord[k]
+        ext = EXT_OF_AXIS[k]
+        stores = [s for s in cxa.all_stores(body) if s.base and s.base[1] == v and s.op == "="]
+        ctx.need(stores, R, "GetNeighborIndex: wrap of axis %s assigns nothing" % "xyz"[k])
+        ok, why = False, "wrap form not recognised"
+        if len(stores) == 1 and strip(stores[0].rhs, casts=True).get("kind") == "BinaryOperator" and \
+                strip(stores[0].rhs, casts=True).get("opcode") == "%":
+            l, r = kids(strip(stores[0].rhs, casts=True))
+            ok = cxa.poly(r) == Poly.sym(ext) and cxa.poly(l) == Poly.sym(ext) + Poly.sym(v)
+            why = "wrap is %s, expected (%s + %s) %% %s" % (text(stores[0].rhs), ext, v, ext)
+        else:
+            # branch form: each assignment sits under one relational test of the coordinate
+            got = []
+            recs = []
+
+            def on_atom(node, facts, recs=recs):
+                for x in walk(node):
+                    for s_ in cxa.stores_of_node(x):
+                        if s_.base and s_.base[1] == v and s_.op == "=":
+                            recs.append((s_, x))
+            conds = []
+            for x in walk(body):
+                if x.get("kind") == "IfStmt":
+                    p_ = cxfe.raw_kids(x)
+                    st = [s_ for s_ in cxa.all_stores(p_[1]) if s_.base and s_.base[1] == v and s_.op == "="]
+                    # only the direct (non-nested-if) assignment of this branch
+                    direct = [s_ for s_ in st if not any(y.get("kind") == "IfStmt" and s_.node in list(walk(y))
+                                                         for y in walk(p_[1]))]
+                    if direct:
+                        conds.append((p_[0], direct[0]))
+            ctx.need(len(conds) == 2, R, "GetNeighborIndex: wrap of axis %s has %d guarded assignments" % ("xyz"[k], len(conds)))
+            E = Poly.sym(ext)
+            okl = okh = False
+            for cnd, st in conds:
+                g = _lin_cond(cnd)
+                ctx.need(g is not None, R, "GetNeighborIndex: wrap condition `%s` not a relational test" % text(cnd))
+                val = cxa.poly(st.rhs)
+                at_m1, at_0 = _holds(g, v, Poly.const(-1)), _holds(g, v, Poly.const(0))
+                at_e, at_e1 = _holds(g, v, E), _holds(g, v, E - Poly.const(1))
+                if val == E - Poly.const(1):        # the low wrap: fires exactly at -1
+                    okl = at_m1 is True and at_0 is False
+                    if not okl:
+                        why = "`%s` does not select exactly the coordinate -1" % text(cnd)
+                elif val == Poly.const(0):          # the high wrap: fires exactly at extent
+                    okh = at_e is True and at_e1 is False
+                    if not okh:
+                        why = "`%s` does not select exactly the coordinate %s" % (text(cnd), ext)
+                else:
+                    why = "wrap assigns %s" % text(st.rhs)
+            ok = okl and okh
+        ctx.check(ok, "C15.DISP", n, f.qual, "periodic wrap of %s: %s" % (v, text(body)[:70]),
+                  "-1 -> %s-1 and %s -> 0, identity inside" % (ext, ext),
+                  "the periodic wrap of axis %s is wrong (%s): one side of the axis loses its neighbour while the other keeps it"
+                  % ("xyz"[k], why))
+    ctx.check(seen_axes == {0, 1, 2}, R, f.node, f.qual, "periodic wrap present for axes %s" % sorted(seen_axes), "", "an axis has "
+              "no periodic wrap")
+    # the range test dominates the encoded index
+    rets = []
+
+    class C(cxa.CanonFacts):
+        def ret(self, s_, cfg):
+            rets.append((s_, cfg))
+    from .. import ir as ir_
+    ir_.Engine(C(None, None, None), "must").run(ir_.cx_to_ir(f.body))
+    enc = [(s_, cfg) for s_, cfg in rets if s_.a is not None and cxa.const_int(s_.a) != -1]
+    ctx.need(len(enc) == 1, "C15.RADIX", "GetNeighborIndex: encode return not found")
+    s_, cfg = enc[0]
+    for k in range(3):
+        v = coord[k]
+        ok = ("0 <= %s" % v, True) in cfg and ("%s < %s" % (v, EXT_OF_AXIS[k]), True) in cfg
+        ctx.check(ok, "C15.ENT", s_.src, f.qual, "index returned only where 0 <= %s < %s" % (v, EXT_OF_AXIS[k]),
+                  "", "the neighbour index is encoded without the two-sided range test on %s" % v)
+    p = cxa.poly(s_.a)
+    want = Poly.sym(coord[0]) + Poly.sym(coord[1]) * Poly.sym("w") + Poly.sym(coord[2]) * Poly.sym("w") * Poly.sym("h")
+    ctx.check(p == want, "C15.RADIX", s_.src, f.qual, text(s_.src), "index = xn + yn*w + zn*w*h", "encoded as %r" % p)
+    others = [x for x, c_ in rets if x.a is not None and cxa.const_int(x.a) == -1]
+    ctx.check(len(others) >= 1, "C15.ENT", f.node, f.qual, "outside the grid: -1", "", "no sentinel return")
     # opposed_direction: fixed-point-free involution pairing opposite moves
     init = tu.fn("SimulationAlgorithm3DBase::Init")
     opp = None
@@ -403,18 +533,6 @@ def rule_cx(ctx, tu):
     ctx.check([k and k[0] for k in pk] == ["x", "y", "z", "dir6"], "C15.RADIX", f.node, f.qual,
               "GetNeighborIndex(x, y, z, direction) argument kinds %s" % [k and k[0] for k in pk],
               "decoded as i%w, i%(w*h)/w, i/(w*h) at the call site", "coordinates are not decoded with strides (1, w, w*h)")
-    rets = [n for n in walk(f.body) if n.get("kind") == "ReturnStmt"]
-    enc = 0
-    for r in rets:
-        e = kids(r)[0]
-        if cxa.const_int(e) == -1:
-            continue
-        p = cxa.poly(e)
-        want = Poly.sym("xn") + Poly.sym("yn") * Poly.sym("w") + Poly.sym("zn") * Poly.sym("w") * Poly.sym("h")
-        enc += 1
-        ctx.check(p == want, "C15.RADIX", r, f.qual, text(r), "index = xn + yn*w + zn*w*h",
-                  "encoded as %r" % p)
-    ctx.need(enc == 1, "C15.RADIX", "GetNeighborIndex: encode return not found")
 
 
 def conj_list(c):
